@@ -134,6 +134,15 @@ func buildWorlds() []world {
 		h := good.Outer.Clone()
 		h.Exts = slices.DeleteFunc(h.Exts, func(e tlsref.Ext) bool { return e.Type == tlsref.ExtECH })
 		evs = append(evs, ch("CH2-without-ech", h.Record(), "missing_extension"))
+		// ... and a second hello that lacks the ECH extension AND no longer offers TLS 1.3: the missing extension is what the
+		// retry rules name (a first hello of that kind would simply be passed through)
+		h2 := h.Clone()
+		for i, e := range h2.Exts {
+			if e.Type == tlsref.ExtSupportedVersions {
+				h2.Exts[i] = tlsref.SupportedVersions(0x7a7a, 0x0303)
+			}
+		}
+		evs = append(evs, ch("CH2-without-ech-without-tls13", h2.Record(), "missing_extension"))
 	}
 	rebuild := func(kdf, aead uint16, id byte, enc []byte, mutatePayload bool) []byte {
 		h := good.Outer.Clone()
@@ -320,7 +329,7 @@ func Run(r *ev.Run) {
 	if r.Thorough() {
 		depth = 5
 	}
-	r.Rule(fmt.Sprintf("E4: explicit-state model of the retry protocol (state = accepted, read/write pass-through, armed-by-HRR, retried, dead); alphabet of 23 events (whole records; one backend event is two records in one Write): client {valid retried hello, hello sealed at seq 0, hello without ECH, other config id, other suite, non-empty enc, corrupt payload, inner SNI changed, inner SNI changed in letter case only, outer SNI changed / absent (sealed consistently), inner ALPN reordered, inner ALPN dropped, CCS, other handshake, alert, application data}, backend {ServerHello, HelloRetryRequest, CCS, other handshake, application data, application data + HelloRetryRequest in one Write}; EVERY history of length %d (hence every shorter one as a prefix) x 3 first-hello situations {accepted, keys but not accepted, no keys} is replayed on a fresh real Conn and compared with the model after every event (bytes delivered, error class, alert bytes, close). plus (sub-run on the instrumented sources, engine E3) the same protocol with Read and Write running concurrently: see evidence key interleavings. distinct = distinct (world, history)", depth))
+	r.Rule(fmt.Sprintf("E4: explicit-state model of the retry protocol (state = accepted, read/write pass-through, armed-by-HRR, retried, dead); alphabet of 24 events (whole records; one backend event is two records in one Write): client {valid retried hello, hello sealed at seq 0, hello without ECH, hello without ECH that does not offer TLS 1.3 either, other config id, other suite, non-empty enc, corrupt payload, inner SNI changed, inner SNI changed in letter case only, outer SNI changed / absent (sealed consistently), inner ALPN reordered, inner ALPN dropped, CCS, other handshake, alert, application data}, backend {ServerHello, HelloRetryRequest, CCS, other handshake, application data, application data + HelloRetryRequest in one Write}; EVERY history of length %d (hence every shorter one as a prefix) x 3 first-hello situations {accepted, keys but not accepted, no keys} is replayed on a fresh real Conn and compared with the model after every event (bytes delivered, error class, alert bytes, close). plus (sub-run on the instrumented sources, engine E3) the same protocol with Read and Write running concurrently: see evidence key interleavings. distinct = distinct (world, history)", depth))
 	r.Assume("model written from the property statement; reference sender validated against crypto/tls (C03)", "events are whole records; fragmentation is C07's subject")
 	worlds := buildWorlds()
 	nev := len(worlds[0].events)
